@@ -195,7 +195,7 @@ def callee_is_any(term, names):
 
 MANIFEST = {
     "category": "other",
-    "technique": "variant-construction scan + typestate by forward dataflow over event_tx.send sites and exit blocks of the coroutine MIR",
+    "technique": "variant-construction scan + typestate by forward dataflow over event_tx.send sites and exit blocks of the coroutine MIR; agreement of the final event with the returned Result (trace of the matched value)",
     "text": "Static over all paths/exits of TopicLogSync::run: which exits lack their terminal event, whether anything is sent after it, and whether each documented event variant is emitted at all. Decides the lifecycle shape of this side's event emission; the interleaving of non-terminal events driven by the remote is not decided.",
     "note": "Trusted: rustc MIR, driver, dataflow engine; broadcast::Sender::send delivers the given event or fails.",
 }
